@@ -252,8 +252,12 @@ class ExprGen:
     OBJECTS = [("t1", "T"), ("t2", "T"), ("s1", "S"), ("s2", "S"), ("u1", "U")]
     INT, REAL, BOOL = ["int", "_", "_"], ["real", "_", "_"], "bool"
 
-    def __init__(self, rng, big=True, quantifiers=True, ifuns=False, params=True, temporal=False, static=()):
+    def __init__(self, rng, big=True, quantifiers=True, ifuns=False, params=True, temporal=False, static=(), repeats=False):
+        """repeats (opt-in; the default draws exactly the stream it always drew): n-ary Plus/Times nodes get
+        syntactically IDENTICAL arguments (2-5 copies, alone or mixed with other arguments in any position) and
+        Minus/Div nodes identical operands — shapes independent draws practically never produce."""
         self.rng, self.big, self.quantifiers, self.ifuns, self.params = rng, big, quantifiers, ifuns, params
+        self.repeats = repeats
         U = lambda n: ["user", n]
         self.bool_fl = [["b0", "bool", []], ["b1", "bool", []], ["b2", "bool", []],
                         ["bq", "bool", [U("T")]], ["bs", "bool", [U("S")]]]
@@ -312,6 +316,19 @@ class ExprGen:
         return ["fl", ref] + args
 
     # -- typed generation ----------------------------------------------------------------------
+    def _dup(self, args):
+        """(repeats) copy one argument over others / append further copies of it: up to 5 identical arguments,
+        the remaining ones (if any) stay where they were."""
+        r = self.rng
+        i = r.randrange(len(args))
+        js = [j for j in range(len(args)) if j != i and r.random() < 0.7] or [(i + 1) % len(args)]
+        for j in js:
+            args[j] = args[i]
+        for _ in range(r.choice([0, 0, 1, 2, 3])):
+            if len(args) < 6:
+                args.insert(r.randrange(len(args) + 1), args[i])
+        return args
+
     def num(self, depth, scope=(), real_ok=True):
         r = self.rng
         if depth <= 0 or r.random() < 0.25:
@@ -334,16 +351,26 @@ class ExprGen:
             args = [sub() for _ in range(n)]
             if r.random() < 0.3:   # nested same operator (flattening)
                 args[r.randrange(n)] = ["plus", sub(), sub()]
+            if self.repeats and r.random() < 0.3:
+                args = self._dup(args)
             return ["plus"] + args
         if k < 0.55:
+            if self.repeats and r.random() < 0.2:
+                a = sub()
+                return ["minus", a, a]
             return ["minus", sub(), sub()]
         if k < 0.85:
             n = r.choice([2, 2, 3])
             args = [sub() for _ in range(n)]
             if r.random() < 0.3:
                 args[r.randrange(n)] = ["times", sub(), sub()]
+            if self.repeats and r.random() < 0.3:
+                args = self._dup(args)
             return ["times"] + args
         if k < 0.95 and real_ok:
+            if self.repeats and r.random() < 0.15:
+                a = sub()
+                return ["div", a, a]
             d = self.const_int() if r.random() < 0.7 else self.const_real()
             if Fraction(d[1]) == 0:
                 d = ["i", "3"]
